@@ -521,6 +521,34 @@ pub fn alpha_rename(p: &Program) -> Vec<Step> {
                     rule: "alpha-rename a binder",
                     program: q,
                 });
+                // A parameter or rec binder may also take the name of a declaration of its
+                // module that the statement it sits in never mentions: the inner binder
+                // shadows the declaration there, and nothing is captured.
+                if b.kind != OccKind::DeclName {
+                    let Some(stmt) = printed.stmts.iter().find(|(m, s, e, _)| *m == b.module && *s <= b.start && b.end <= *e) else {
+                        continue;
+                    };
+                    let mut taken: Vec<&str> = Vec::new();
+                    for d in printed.occs.iter().filter(|d| d.kind == OccKind::DeclName && d.module == b.module) {
+                        if d.text.starts_with('@') || d.text == b.text || d.text == "concat" || taken.contains(&d.text.as_str()) {
+                            continue;
+                        }
+                        let mentioned = printed
+                            .occs
+                            .iter()
+                            .any(|o| o.module == b.module && stmt.1 <= o.start && o.end <= stmt.2 && o.text == d.text);
+                        if mentioned {
+                            continue;
+                        }
+                        taken.push(d.text.as_str());
+                        let name = d.text.clone();
+                        let q = rename_occs(p, &|i| if i == bi || uses.contains(&i) { Some(name.clone()) } else { None });
+                        out.push(Step {
+                            rule: "rename an inner binder to the name of a declaration it shadows",
+                            program: q,
+                        });
+                    }
+                }
             }
             OccKind::ImportQualifier => {
                 // all qualified uses of that qualifier in the same module
